@@ -385,3 +385,6 @@ COMPONENTS = {
              "mpilot.params", "numpy.ma"],
     "stub": ["file system: SimFS", "producer results are injected finished commands"],
 }
+
+
+STATE_MEASURE = {'C09': 'abstract state = (number of results produced, consumer classes used); schedule key = sequence of consumer classes'}
